@@ -11,6 +11,7 @@ import (
 	"io"
 	"math/big"
 	"reflect"
+	"runtime"
 	"strings"
 	"testing"
 	"testing/iotest"
@@ -68,6 +69,7 @@ type node struct {
 	u     uint64
 	v     *big.Int
 	pt    ref.Pt
+	long  bool // vector of points longer than runtime.NumCPU()
 }
 
 func (n *node) write(w *bytes.Buffer) {
@@ -102,6 +104,73 @@ type item struct {
 	kind string // "u64","fr","fp","[]fr","[]fp","[][]fr","[][][]fr","[]u64","[][]u64","pt:G1","[]pt:G1",...
 	root *node
 	enc  string // encode-side variant: "", "named_vector", "ptr_to_slice"
+	raw  bool   // encoding mode of this item (points)
+	// mixedItems: a slice whose elements are individually raw or compressed; no Encoder produces it,
+	// the bytes are assembled by the harness (the wire format is self-describing per item)
+	mixedItems bool
+}
+
+// itemOpt selects the variants of a generated item.
+type itemOpt struct {
+	raw        bool
+	mixedItems bool // point slices: draw the mode per element
+	long       int  // point slices: this many elements (> NumCPU), cheap pool points
+}
+
+// longSizes: slice lengths around and above the number of workers of the parallel decoding phase.
+func longSizes() []int {
+	n := runtime.NumCPU()
+	sz := []int{n + 1, 2*n + 1, 2*n + n/2, 6*n + 4}
+	if rep.Thorough() {
+		sz = append(sz, 3*n-1, 16*n+1, 1000)
+	}
+	return sz
+}
+
+// chunksOf mirrors the work split of the decoders' parallel phase (internal/parallel.Execute): NumCPU
+// chunks of n/NumCPU items, the first n%NumCPU chunks one item longer; one item per chunk when n < NumCPU.
+// It is used for class labels and to aim corruptions at every position of a chunk, not as an oracle.
+func chunksOf(n int) [][2]int {
+	tasks := runtime.NumCPU()
+	if tasks == 1 || n == 0 {
+		return [][2]int{{0, n}}
+	}
+	per := n / tasks
+	if per < 1 {
+		per, tasks = 1, n
+	}
+	extra := n - tasks*per
+	var out [][2]int
+	start := 0
+	for i := 0; i < tasks; i++ {
+		end := start + per
+		if extra > 0 {
+			end++
+			extra--
+		}
+		out = append(out, [2]int{start, end})
+		start = end
+	}
+	return out
+}
+
+func posInChunk(n, idx int) string {
+	for _, c := range chunksOf(n) {
+		if idx >= c[0] && idx < c[1] {
+			switch {
+			case c[1]-c[0] == 1:
+				return "only"
+			case idx == c[0]:
+				return "first"
+			case idx == c[1]-1:
+				return "last"
+			case idx == c[1]-2:
+				return "last_but_one"
+			}
+			return "middle"
+		}
+	}
+	return "none"
 }
 
 func (s *sctx) kinds(focus string) []string {
@@ -143,8 +212,44 @@ func (s *sctx) genPt(t *rapid.T, lab, grp string, raw bool) *node {
 	return &node{kind: "pt:" + grp, pt: p, leaf: f.encode(p, raw), lenOv: -1}
 }
 
+// genPtCheap draws a pool point, its negation or infinity (no fresh scalar multiplication).
+func (s *sctx) genPtCheap(t *rapid.T, lab, grp string, raw bool) *node {
+	f := s.g[grp]
+	pl := f.pool()
+	i := rapid.IntRange(-1, 2*len(pl.sub)-1).Draw(t, lab)
+	p := ref.Pt{Inf: true}
+	if i >= len(pl.sub) {
+		p = f.G.E.Neg(pl.sub[i-len(pl.sub)])
+	} else if i >= 0 {
+		p = pl.sub[i]
+	}
+	return &node{kind: "pt:" + grp, pt: p, leaf: f.encode(p, raw), lenOv: -1}
+}
+
 func (s *sctx) genItem(t *rapid.T, lab, kind string, raw bool) *item {
-	it := &item{kind: kind}
+	return s.genItemOpt(t, lab, kind, itemOpt{raw: raw})
+}
+
+func (s *sctx) genItemOpt(t *rapid.T, lab, kind string, o itemOpt) *item {
+	raw := o.raw
+	it := &item{kind: kind, raw: raw}
+	if strings.HasPrefix(kind, "[]pt:") && (o.mixedItems || o.long > 0) {
+		grp := kind[5:]
+		n := o.long
+		if n == 0 {
+			n = rapid.IntRange(2, 5).Draw(t, lab+"n")
+		}
+		v := &node{kind: "vec", lenOv: -1, long: o.long > 0}
+		for i := 0; i < n; i++ {
+			r := raw
+			if o.mixedItems {
+				r = rapid.Bool().Draw(t, fmt.Sprintf("%s.%draw", lab, i))
+			}
+			v.kids = append(v.kids, s.genPtCheap(t, fmt.Sprintf("%s.%d", lab, i), grp, r))
+		}
+		it.root, it.mixedItems = v, o.mixedItems
+		return it
+	}
 	u64 := func(l string) *node {
 		u := rapid.OneOf(rapid.Uint64(), rapid.SampledFrom([]uint64{0, 1, 1<<32 - 1, 1 << 32, 1<<63 - 1, 1 << 63, ^uint64(0)})).Draw(t, l)
 		var b [8]byte
@@ -347,7 +452,7 @@ func (s *sctx) parse(kind string, b []byte, off int, sub bool) (txt string, end 
 	if len(rest) < need {
 		return "", off, false, "truncated_point"
 	}
-	v := f.decode(rest[:need], sub)
+	v := f.decodeCached(rest[:need], sub)
 	if !v.ok {
 		return "", off, false, "pt:" + v.why
 	}
@@ -491,7 +596,62 @@ func (s *sctx) mutate(t *rapid.T, items []*item, cls *[]string) []byte {
 	isFelt := func(l leafRef) bool { return l.n.kind == "fr" || l.n.kind == "fp" }
 	isPt := func(l leafRef) bool { return strings.HasPrefix(l.n.kind, "pt:") }
 	m := rapid.SampledFrom([]string{"none", "none", "none", "truncate", "truncate", "felt", "felt", "felt_aligned", "felt_aligned",
-		"point", "point", "point", "point_mid", "point_y0", "prefix", "prefix", "bitflip", "insert"}).Draw(t, "mut")
+		"point", "point", "point", "point_mid", "point_y0", "point_long", "point_long", "prefix", "prefix", "bitflip", "insert"}).Draw(t, "mut")
+	if forceLong := hasLong(vecs); forceLong && m != "none" && m != "truncate" && rapid.IntRange(0, 2).Draw(t, "aimlong") != 0 {
+		m = "point_long"
+	}
+	if m == "point_long" {
+		// a bad item at a chosen position of a worker chunk of a slice longer than NumCPU
+		var lv []*node
+		for _, v := range vecs {
+			if v.long && len(v.kids) > 0 {
+				lv = append(lv, v)
+			}
+		}
+		if len(lv) == 0 {
+			m = "point"
+		} else {
+			v := lv[rapid.IntRange(0, len(lv)-1).Draw(t, "longvec")]
+			ch := chunksOf(len(v.kids))
+			c := ch[rapid.IntRange(0, len(ch)-1).Draw(t, "chunk")]
+			idx := c[0]
+			switch rapid.SampledFrom([]string{"first", "middle", "last_but_one", "last"}).Draw(t, "chunkpos") {
+			case "middle":
+				idx = c[0] + (c[1]-c[0])/2
+			case "last_but_one":
+				if c[1]-c[0] >= 2 {
+					idx = c[1] - 2
+				}
+			case "last":
+				idx = c[1] - 1
+			}
+			l := v.kids[idx]
+			f := s.g[l.kind[3:]]
+			pl := f.pool()
+			how := rapid.SampledFrom([]string{"nosqrt", "nosqrt", "cof_compressed", "cof_compressed", "cof_raw", "offcurve_raw", "grammar"}).Draw(t, "badhow")
+			switch how {
+			case "nosqrt":
+				b := make([]byte, f.S)
+				f.putCoord(b, pl.nonsq[rapid.IntRange(0, len(pl.nonsq)-1).Draw(t, "ns")])
+				b[0] |= f.flagBits(rapid.SampledFrom([]int{kSmall, kLarge}).Draw(t, "nsflag"))
+				l.leaf = b
+			case "cof_compressed", "cof_raw":
+				p := pl.cof[rapid.IntRange(0, len(pl.cof)-1).Draw(t, "cof")]
+				l.leaf = f.encode(p, how == "cof_raw")
+			case "offcurve_raw":
+				p := pl.sub[rapid.IntRange(0, len(pl.sub)-1).Draw(t, "oc")]
+				l.leaf = f.encode(ref.Pt{X: p.X, Y: f.G.E.F.Add(p.Y, f.G.E.F.One())}, true)
+			default:
+				var pc []string
+				l.leaf, pc = f.genPoint(t, "mp", -1)
+				for _, c := range pc {
+					*cls = append(*cls, "mp:"+c)
+				}
+			}
+			*cls = append(*cls, "mut:point_long", "mut:point_long_"+how, "bad_item_pos_in_chunk:"+posInChunk(len(v.kids), idx))
+			return ser()
+		}
+	}
 	if m == "point_y0" {
 		// a point of order 2 (y = 0) in place of a point: raw, or compressed with either flag
 		l := pick(func(l leafRef) bool { return isPt(l) && len(s.g[l.n.kind[3:]].pool().tors) > 0 })
@@ -616,6 +776,15 @@ func (s *sctx) mutate(t *rapid.T, items []*item, cls *[]string) []byte {
 	return ser()
 }
 
+func hasLong(vecs []*node) bool {
+	for _, v := range vecs {
+		if v.long {
+			return true
+		}
+	}
+	return false
+}
+
 // guard scans the type script over the bytes like the decoders do and reports whether any length
 // prefix that a decoder would read announces more than maxPrefix elements (such streams are not fed
 // to the library: the outcome would depend on the allocator).
@@ -684,66 +853,119 @@ func propStream(t *rapid.T, s *sctx, focus string) {
 	test := "C07_Stream/" + s.curve + "/" + focus
 	raw := rapid.Bool().Draw(t, "rawenc")
 	nosub := rapid.IntRange(0, 2).Draw(t, "nosub") == 0
+	// scenario: "pt_slices" = several point slices in independently drawn encodings decoded by ONE decoder;
+	// "long_slice" = a point slice longer than NumCPU (parallel phase handles several items per worker)
+	scenario := rapid.SampledFrom([]string{"mixed", "mixed", "mixed", "mixed", "mixed", "mixed", "mixed", "pt_slices", "pt_slices", "long_slice"}).Draw(t, "scenario")
+	perItemMode := scenario == "pt_slices" || rapid.IntRange(0, 3).Draw(t, "peritem") == 0
 	k := rapid.IntRange(1, 5).Draw(t, "k")
+	if scenario == "pt_slices" {
+		k = rapid.IntRange(2, 4).Draw(t, "k2")
+	}
 	kinds := s.kinds(focus)
 	items := make([]*item, k)
 	cls := []string{}
 	var script []string
+	longAt := -1
+	if scenario == "long_slice" {
+		longAt = rapid.IntRange(0, k-1).Draw(t, "longat")
+	}
 	for i := range items {
 		kd := rapid.SampledFrom(kinds).Draw(t, fmt.Sprintf("kind%d", i))
-		items[i] = s.genItem(t, fmt.Sprintf("i%d", i), kd, raw)
+		o := itemOpt{raw: raw}
+		if perItemMode {
+			o.raw = rapid.Bool().Draw(t, fmt.Sprintf("raw%d", i))
+		}
+		if scenario == "pt_slices" {
+			kd = "[]pt:" + focus
+			if s.g["G2"] != nil && rapid.IntRange(0, 3).Draw(t, fmt.Sprintf("grp%d", i)) == 0 {
+				kd = "[]pt:G1"
+				if focus == "G1" {
+					kd = "[]pt:G2"
+				}
+			}
+		}
+		if i == longAt {
+			kd = "[]pt:" + focus
+			o.long = rapid.SampledFrom(longSizes()).Draw(t, "longn")
+		}
+		if strings.HasPrefix(kd, "[]pt:") && rapid.IntRange(0, 5).Draw(t, fmt.Sprintf("mixeditems%d", i)) == 0 {
+			o.mixedItems = true
+		}
+		items[i] = s.genItemOpt(t, fmt.Sprintf("i%d", i), kd, o)
 		script = append(script, kd)
 		cls = append(cls, "type:"+strings.TrimSuffix(strings.TrimSuffix(kd, ":G1"), ":G2"))
+		if items[i].root.long {
+			cls = append(cls, "slice_len>NumCPU", fmt.Sprintf("slice_len:%d", len(items[i].root.kids)))
+		}
+		if items[i].mixedItems {
+			nr := 0
+			for _, kid := range items[i].root.kids {
+				if len(kid.leaf) == 2*s.g[kd[5:]].S {
+					nr++
+				}
+			}
+			if nr > 0 && nr < len(items[i].root.kids) {
+				cls = append(cls, "slice:mixed_item_encodings")
+			}
+		}
 	}
-	if raw {
-		cls = append(cls, "enc:raw")
-	} else {
-		cls = append(cls, "enc:compressed")
+	// a stream holds mixed encodings when point-bearing items of both modes occur
+	var sawRaw, sawComp bool
+	for _, it := range items {
+		if strings.Contains(it.kind, "pt:") && !it.mixedItems {
+			if it.raw {
+				sawRaw = true
+			} else {
+				sawComp = true
+			}
+		}
+		if it.raw {
+			cls = append(cls, "enc:raw")
+		} else {
+			cls = append(cls, "enc:compressed")
+		}
+	}
+	if sawRaw && sawComp {
+		cls = append(cls, "stream:mixed_encodings")
 	}
 	if nosub {
 		cls = append(cls, "opt:NoSubgroupChecks")
 	}
 
-	// (1) encode with the library, compare with the reference serialisation and the byte counters
+	// (1) encode with the library: a compressed and a RawEncoding Encoder append to the same writer (the
+	// concatenation is a legal stream, every item describes its own mode); compare with the reference
+	// serialisation and each Encoder's byte counter with what it produced
 	var want bytes.Buffer
 	for _, it := range items {
 		it.root.write(&want)
 	}
 	var got bytes.Buffer
 	cw := &countW{w: &got}
-	enc := s.newEncoder(cw, raw)
+	encs := map[bool]interface{}{false: s.newEncoder(cw, false), true: s.newEncoder(cw, true)}
+	encN := map[bool]int64{}
 	for i, it := range items {
-		val := reflect.New(s.goType(it.kind)).Elem()
-		s.build(val, it.root)
-		var arg interface{}
-		switch {
-		case it.kind == "u64":
-			arg = val.Interface()
-		case it.kind == "fr" || it.kind == "fp" || strings.HasPrefix(it.kind, "pt:"):
-			arg = val.Addr().Interface()
-		case it.enc == "named_vector":
-			vt := s.frVecT
-			if it.kind == "[]fp" {
-				vt = s.fpVecT
-			}
-			arg = val.Convert(vt).Interface()
-			cls = append(cls, "encvariant:named_vector")
-		case it.enc == "ptr_to_slice":
-			arg = val.Addr().Interface()
-			cls = append(cls, "encvariant:ptr_to_slice")
-		default:
-			arg = val.Interface()
+		if it.mixedItems {
+			it.root.write(&got) // assembled by hand, not through an Encoder
+			cw.n = int64(got.Len())
+			continue
 		}
+		arg := s.encArg(it)
+		if it.enc != "" {
+			cls = append(cls, "encvariant:"+it.enc)
+		}
+		before := cw.n
+		enc := encs[it.raw]
 		if err := reg.Err(reg.M(enc, "Encode", arg)); err != nil {
 			t.Fatalf("%s: Encode(item %d, %s) failed: %v", s.curve, i, it.kind, err)
 		}
+		encN[it.raw] += cw.n - before
 		bw := reg.M(enc, "BytesWritten")[0].(int64)
-		if bw != cw.n || bw != int64(got.Len()) {
-			t.Fatalf("%s: after Encode(item %d, %s, raw=%v): BytesWritten=%d, writer received %d bytes", s.curve, i, it.kind, raw, bw, cw.n)
+		if bw != encN[it.raw] || cw.n != int64(got.Len()) {
+			t.Fatalf("%s: after Encode(item %d, %s, raw=%v): BytesWritten=%d, this encoder produced %d bytes", s.curve, i, it.kind, it.raw, bw, encN[it.raw])
 		}
 	}
 	if !bytes.Equal(got.Bytes(), want.Bytes()) {
-		t.Fatalf("%s: Encoder output differs from the format (raw=%v, script %v):\n got  %x\n want %x", s.curve, raw, script, got.Bytes(), want.Bytes())
+		t.Fatalf("%s: Encoder output differs from the format (script %v):\n got  %x\n want %x", s.curve, script, got.Bytes(), want.Bytes())
 	}
 
 	// (2) mutate, then decode with the same type script
